@@ -1,5 +1,6 @@
 SPECIFICATION Spec
 CONSTANTS
+  Prepared = FALSE
   MaxLen = 3
   RenderReleasesRoot = TRUE
 INVARIANTS
